@@ -1439,6 +1439,15 @@ func (g *G) genFunc(i int) *Func {
 				}
 				f.Body = append(f.Body, &S{K: SReturn, ID: g.id(), E: &X{K: XRaw, S: "its9[" + idx + "]"}, RetIter: true})
 				g.mark("return_operand_panics_without_a_call")
+			} else if len(f.Params) > 0 && len(o.Params) > 0 && r.Chance(1, 2) {
+				// a call of a generator whose arguments contain no call but may panic (division by
+				// zero for some argument vectors): constructing the iterator runs nothing, the
+				// evaluation of its arguments does happen, in the advance that reaches the return
+				p0 := f.Params[0]
+				call.Args[0] = &X{K: XRaw, S: fmt.Sprintf("%d / ((%s*%s + %d) %% 3)", r.Range(7, 30), p0, p0, r.Intn(3))}
+				f.Body = append(f.Body, &S{K: SReturn, ID: g.id(), E: call, RetIter: true})
+				g.feat["CALL:"+o.Name] = true
+				g.mark("return_of_a_generator_call_whose_call_free_arguments_may_panic")
 			} else {
 				f.Body = append(f.Body, &S{K: SReturn, ID: g.id(), E: call, RetIter: true})
 				g.feat["CALL:"+o.Name] = true
